@@ -25,6 +25,7 @@ existing = [int(os.path.basename(d).split('-')[1]) for d in glob.glob(f"{V}/seed
 dropped = [int(os.path.basename(d).split('-')[1]) for d in glob.glob(f"{V}/seeded/dropped/{pid}-*")]
 nxt = max(existing + dropped + [2]) + 1
 rows = []
+unconfirmed = False
 for sd in sorted(glob.glob(f"{wt}/SEED/*")):
     if os.path.isdir(sd) and not os.path.basename(sd).startswith("in_"):
         os.rename(sd, os.path.join(os.path.dirname(sd), "in_" + os.path.basename(sd)))
@@ -81,8 +82,12 @@ for sd in sorted(glob.glob(f"{wt}/SEED/in_*")):
     print(f"{pid}-{n}: placement {place}, tests {rx[:80]} -> {'CONFIRMED' if ok else 'NOT CONFIRMED'}")
     if not ok:
         print("   ", out.replace("\n", " | ")[:400])
+        unconfirmed = True
         continue
     known[h] = f"{pid}-{n}"
     t = sh(f"cd {V} && tools/try_all_seeds.sh quick {pid}-{n} >/dev/null 2>&1; grep '^{pid}-{n}\t' seeded/MATRIX.tsv")
     print("    try:", t.stdout.strip())
-sh(f"git -C /repo worktree remove --force {wt}")
+if unconfirmed:
+    print(f"worktree {wt} kept: not every change was confirmed")
+else:
+    sh(f"git -C /repo worktree remove --force {wt}")
